@@ -807,7 +807,38 @@ class C20(Prop):
                 stats['distinct_nontrivial'] += 1
             if bad:
                 F.append(({'case': r['case'], 'impl': r['impl'], 'model': None, 'spec': [], 'noshrink': True}, bad))
-        return F, {'zero_read_cases': len(cases)}
+        # the CONSUMING iterator into_records() (its own `impl Iterator`), over a file opened with from_path /
+        # from_path_with_capacity and over a slice with the default / a given capacity: item by item what records()
+        # delivers on the same input (which the main run compares with the model), the end exactly once and for good
+        pairs = []
+        for f in ('fa', 'fq'):
+            for _ in range(150 if tier == 'quick' else 3000):
+                cap = rng.choice([3, 5, 8, 16, 64])
+                t = gen.fasta_file(rng, cap) if f == 'fa' else gen.fastq_file(rng, cap)
+                if rng.chance(1, 4):
+                    t = gen.malform(rng, f, t)
+                ref = gen.mkcase(f, cap, t, None, None, 'std', ['O'] * (gen.n_items_bound(f, t) + 3))
+                how = rng.choice([('p', str(cap)), ('p', '-'), ('m', str(cap)), ('m', '-')])
+                pairs.append((ref, 'ir %s %s %s %s' % (f, how[1], gen.hx(t), how[0])))
+        refs = vlib.run_cases([a for a, _ in pairs], self.id + '_irref', model=False)
+        irs = vlib.run_cases([b for _, b in pairs], self.id + '_ir', model=False)
+        for ra, rb in zip(refs, irs):
+            stats['evaluations'] += 1
+            want = []
+            for l in ra['impl']:
+                want.append(norm_lossy(parse_line(l)['out']))
+                if want[-1] == 'none':
+                    break
+            got = [norm_lossy(x) for x in rb['impl']]
+            if any(x.startswith('own') for x in got):
+                stats['distinct_nontrivial'] += 1
+            if got != want:
+                k = next((i for i, (a, b) in enumerate(zip(got, want)) if a != b), min(len(got), len(want)))
+                F.append(({'case': rb['case'], 'impl': rb['impl'], 'model': None, 'spec': [], 'noshrink': True,
+                           'other_case': ra['case'], 'other_impl': ra['impl']},
+                          ['into_records() differs from records() on the same input at item %d: %s  vs  %s'
+                           % (k, (got[k] if k < len(got) else '<nothing>')[:80], (want[k] if k < len(want) else '<nothing>')[:80])]))
+        return F, {'zero_read_cases': len(cases), 'into_records_cases': len(pairs)}
 
     def nontrivial(self, res):
         return 'steps' in ''.join(res['impl'])
